@@ -181,6 +181,12 @@ M = [
     ('C02', 'PGPKey.revoker', 'pgpy.pgp', "        prefs['revocable'] = False\n        return self._sign(self, sig, **prefs)", "        return self._sign(self, sig, **prefs)"),
     ('C02', 'PGPKey.revoker', 'pgpy.pgp', "                                         algorithm=revoker.key_algorithm,\n                                         fingerprint=revoker.fingerprint,", "                                         algorithm=self.key_algorithm,\n                                         fingerprint=revoker.fingerprint,"),
     ('C02', 'PGPKey.revoker[sens', 'pgpy.pgp', "        keyclass = RevocationKeyClass.Normal | (RevocationKeyClass.Sensitive if sensitive else 0x00)", "        keyclass = RevocationKeyClass.Normal"),
+    ('C04', 'SKEData.decrypt', 'pgpy.packet.packets', "        iv_resync = bytes(self.ct[2:block_size_bytes + 2])", "        iv_resync = bytes(self.ct[0:block_size_bytes])"),
+    ('C04', 'SKEData.decrypt', 'pgpy.packet.packets', "        if not constant_time.bytes_eq(iv[-2:], ivl2):\n            raise PGPDecryptionError(\"Decryption failed\")\n\n        pt = _decrypt(bytes(self.ct[block_size_bytes + 2:])", "        pt = _decrypt(bytes(self.ct[block_size_bytes + 2:])"),
+    ('C14', 'PGPSignature.exportable', 'pgpy.pgp', "            return bool(next(iter(self._signature.subpackets['ExportableCertification'])))\n\n        return True", "            return bool(next(iter(self._signature.subpackets['ExportableCertification'])))\n\n        return 'RevocationKey' not in self._signature.subpackets"),
+    ('C01', 'PGPUID.hashdata', 'pgpy.pgp', "            return self._uid.__bytearray__()[len(self._uid.header):]", "            return self._uid.__bytearray__()[-self._uid.header.length:]"),
+    ('C08', 'LiteralData.__bytearray__', 'pgpy.packet.packets', "        _bytes += bytearray([len(self.filename.encode('utf-8'))])", "        _bytes += bytearray([min(255, len(self.filename.encode('utf-8')))])"),
+    ('C06', 'PrivKey.clear', 'pgpy.packet.fields', "    def __privkey__(self):\n        return rsa.RSAPrivateNumbers(self.p, self.q, self.d,", "    def __privkey__(self):\n        self._last = (self.p, self.q, self.d)\n        return rsa.RSAPrivateNumbers(self.p, self.q, self.d,"),
 ]
 
 
